@@ -111,6 +111,7 @@ type ValView struct {
 type View struct {
 	Balances    map[string]sdk.Int // by address (raw bytes as string), stake denom only
 	OtherDenoms bool
+	Other       map[string]string // by address: the coins held in other denominations, as text ("" = none)
 	AccAddrs    []string
 	Supply      sdk.Int
 	Vals        []ValView // sorted by address
@@ -156,6 +157,16 @@ func (app *App) Decode(d Dump) View {
 			amt := acc.GetCoins().AmountOf(Denom)
 			if len(acc.GetCoins()) > 1 || (len(acc.GetCoins()) == 1 && acc.GetCoins()[0].Denom != Denom) {
 				v.OtherDenoms = true
+				var rest sdk.Coins
+				for _, c := range acc.GetCoins() {
+					if c.Denom != Denom {
+						rest = append(rest, c)
+					}
+				}
+				if v.Other == nil {
+					v.Other = map[string]string{}
+				}
+				v.Other[string(kv.K[1:])] = rest.String()
 			}
 			if acc.GetCoins().IsAnyNegative() {
 				v.NegBalance = true
